@@ -22,6 +22,15 @@ THEOREMS = [
     "C09.no_escape_min_max", "C09.no_escape_to_dict", "C09.no_escape_contains", "C09.no_escape_predicate_forms",
     "C09.no_escape_key_forms", "C09.no_escape_sequence_equal",
     "C09.map_raise_end_to_end", "C09.reduce_raise_end_to_end", "C09.contains_raise_end_to_end",
+    # generic end-to-end theorem (A)+(B) => delivery, closed under pipe, and its instances for the whole family
+    "C09.raise_end_to_end", "C09.pipe_raise_end_to_end", "C09.filter_raise_end_to_end", "C09.take_while_raise_end_to_end",
+    "C09.distinct_key_raise_end_to_end", "C09.distinct_comparer_raise_end_to_end", "C09.find_raise_end_to_end",
+    "C09.scan_raise_end_to_end", "C09.reduce_state_raise_end_to_end", "C09.extrema_key_raise_end_to_end",
+    "C09.extrema_comparer_raise_end_to_end", "C09.to_dict_raise_end_to_end", "C09.predicate_forms_raise_end_to_end",
+    "C09.all_raise_end_to_end", "C09.contains_pipe_raise_end_to_end", "C09.key_forms_raise_end_to_end",
+    # multi-source / higher-order operators over the comb / win families' machines
+    "C09.comb_raise_delivered", "C09.no_escape_projection", "C09.no_escape_catch_handler", "C09.no_escape_seq_factory",
+    "C09.group_by_until_raise_paths", "C09.group_by_until_failure_path",
 ]
 RULE = ("inject: for every catalogued (operator, callback) an InjectedError raised at the k-th invocation (k = 0..4) of that callback, over "
         "Subjects (escape = exception out of subject.on_next), hot and cold TestScheduler observables (escape = exception out of the "
@@ -77,6 +86,8 @@ def gen_model(rng, op):
                             "dflt": False}
     else:
         c = C06.gen_single(rng, op)
+        while c.get("unhashable"):  # TypeError of set.add / dict assignment is not a user callback (C06's business)
+            c = C06.gen_single(rng, op)
     c["kind"] = "model"
     c["mode"] = rng.choice(["subject", "subject", "hot"])
     return c
@@ -618,7 +629,13 @@ LEVEL_TEXT = ("Lean theorems (all inputs, all callbacks, no bound): for every op
               "the real code by an injection oracle written from the property text.")
 LEVEL_NOTE = ("Lean part covers: map, filter, take_while, distinct (as repaired by fixes/C09_distinct_comparer.patch), find, scan, reduce, min_by/max_by/"
               "min/max, to_dict, contains, count/first/last/single(+_or_default)/some/all with predicate, sum/average with key mapper, sequence_equal. "
-              "(B) is stated per handler state; end-to-end instances are proved for map, reduce, contains. Everything else in the catalogue "
+              "(B) is stated per handler state; the generic raise_end_to_end / pipe_raise_end_to_end theorems turn (A)+(B) into the end-to-end statement "
+              "for any operator and any pipe, instantiated for every operator of the family. Over the comb/win builders' machines (imported read-only): "
+              "raising projection of flat_map/concat_map/switch_map, catch handler, source factories of on_error_resume_next/concat/catch/while_do/"
+              "for_in (exactly on_error e, all live sources closed in container order, machine stopped, nothing emitted afterwards) and all four "
+              "mapper-raise paths of group_by_until (= errorAll: outer on_error, every open group's writer stopped, nothing escaped; release of the "
+              "source subscription is NOT proved here — it needs the RefCount invariant, checked by the oracle). window_when / using raise paths "
+              "are covered by the win builder's C18/C40 theorems, not re-proved here. Everything else in the catalogue "
               "(group_by_until, flat_map/switch_map/concat_map, delay/throttle/timeout_with_mapper, window_when/toggle, group_join/join, using, "
               "defer/case/if_then, generate(+relative time), while_do/do_while/for_in, catch, on_error_resume_next, do_action, starmap, publish/replay/"
               "multicast mappers, create/start/to_async, expand, partition …) is oracle-only (exploration on generated timelines, k ≤ 4). Downstream "
